@@ -1401,3 +1401,67 @@ mod test {
         }
     }
 }
+
+////////////////////////////////////////////////////////////////////////////////
+
+/// Verification hooks (only compiled with `--cfg fidget_verif`)
+#[cfg(fidget_verif)]
+impl<T> JitTracingFn<T> {
+    /// Returns the executable mapping that holds the machine code (the code
+    /// starts at offset 0; bytes past its end are whatever the mapping held)
+    pub fn verif_code(&self) -> &[u8] {
+        unsafe {
+            std::slice::from_raw_parts(
+                self.mmap.as_ptr() as *const u8,
+                self.mmap.capacity(),
+            )
+        }
+    }
+
+    /// Builds a tracing tape around an arbitrary function pointer, so that
+    /// the evaluator drivers can be exercised with a model function
+    pub fn verif_from_fn(
+        fn_trace: JitTracingFnPointer<T>,
+        vars: VarMap,
+        choice_count: usize,
+        output_count: usize,
+    ) -> Self {
+        Self {
+            mmap: Arc::new(Mmap::empty()),
+            choice_count,
+            output_count,
+            vars: Arc::new(vars),
+            fn_trace,
+        }
+    }
+}
+
+/// Verification hooks (only compiled with `--cfg fidget_verif`)
+#[cfg(fidget_verif)]
+impl<T> JitBulkFn<T> {
+    /// Returns the executable mapping that holds the machine code (the code
+    /// starts at offset 0; bytes past its end are whatever the mapping held)
+    pub fn verif_code(&self) -> &[u8] {
+        unsafe {
+            std::slice::from_raw_parts(
+                self.mmap.as_ptr() as *const u8,
+                self.mmap.capacity(),
+            )
+        }
+    }
+
+    /// Builds a bulk tape around an arbitrary function pointer, so that the
+    /// evaluator drivers can be exercised with a model function
+    pub fn verif_from_fn(
+        fn_bulk: JitBulkFnPointer<T>,
+        vars: VarMap,
+        output_count: usize,
+    ) -> Self {
+        Self {
+            mmap: Arc::new(Mmap::empty()),
+            vars: Arc::new(vars),
+            output_count,
+            fn_bulk,
+        }
+    }
+}
